@@ -38,13 +38,14 @@ CLAIMED = {
          'containers included: unflatten(flatten(g)) is a graph isomorphism (one fresh cell per reachable object, references renamed by an injective numbering), hence the same paths exist '
          'with the same shapes and two paths reach one object afterwards iff they did before; a filtered split is a partition by first match (raises when not exhaustive); merge does not '
          'depend on the order of the states; flatten emits leaves in strictly increasing path order when sibling keys are sorted, so a split merged back in any order is the round trip; '
-         '(graphdef, leaves) is a canonical form (invariant under any injective renaming of the objects; flatten after unflatten is the identity); update changes no node and keeps every Variable at its location and type, last write wins; pop (PARTIAL) only removes attributes holding selected Variables. Tied to /repo per '
+         '(graphdef, leaves) is a canonical form (invariant under any injective renaming of the objects; flatten after unflatten is the identity); flatten is total on every closed heap (the '
+         'traversal terminates within the fuel the model gives itself because an object is entered only while it is not in ref_index: a termination proof, so the round-trip theorems hold for every closed graph); update changes no node and keeps every Variable at its location and type, last write wins; pop (PARTIAL) only removes attributes holding selected Variables. Tied to /repo per '
          'run: random graphs built from real nnx Modules/Variables; graphdef, leaves, buckets, update and pop results compared in Coq; isomorphism / freshness / clone / identity by an '
          'independent canonical-form oracle.',
     note='Trusted: Coq kernel, vm_compute, harness (graph encoder impl_graph.py, canonical form), jaxcompat. Containers (list/tuple/dict) have value semantics in model and code: a container '
          'shared by two attributes is duplicated (known finding F9). pop leaves aliases of a popped Variable in place (known finding F19), so "removes exactly the selected Variables" is '
          'proved only as: nothing else is removed and everything returned was selected. clone and "g is left untouched" are oracle-checked (the model is purely functional). No axioms.',
-    technique='Coq proof (joint flatten/unflatten invariant by fuel induction, partition and sorting lemmas) + per-run model-vs-implementation correspondence by vm_compute',
+    technique='Coq proof (joint flatten/unflatten invariant by fuel induction, termination by an unvisited-weight measure, partition and sorting lemmas) + per-run model-vs-implementation correspondence by vm_compute',
     ref='DESIGN.md section 5, C03'),
   'C04': dict(
     text='A Gallina model of the UpdateContext protocol behind nnx.jit / remat / cond / switch / while_loop / fori_loop / cached_partial (outer split with one ref_index for all arguments, inner '
@@ -148,14 +149,18 @@ CLAIMED = {
     ref='DESIGN.md section 5, C11'),
   'C12': dict(
     text='PARTIAL. A Gallina model of Dense, 1-D Conv (padding canonicalisation, CIRCULAR / REFLECT / CAUSAL pre-padding with jnp.pad, then a VALID convolution; stride, kernel dilation, groups), '
+         '1-D ConvTranspose (input dilated by the stride, jax\'s transpose padding rule for SAME / VALID, stride-1 convolution with kernel dilation, and the layer\'s own CIRCULAR post-processing: '
+         'pad the VALID result to whole periods, reshape and sum, with the alignment depending on transpose_kernel), '
          'Embed, 1-D avg / max / min pooling and the statistics of the normalisation layers (masked mean / variance, BatchNorm running averages). Proved for all inputs and hyper-parameters: '
-         'pre-pad + VALID convolution equals the documented direct sum over the extended signal; CAUSAL outputs do not depend on later inputs; SAME yields ceil(n/stride) positions; max pooling '
+         'pre-pad + VALID convolution equals the documented direct sum over the extended signal; CAUSAL outputs do not depend on later inputs; SAME yields ceil(n/stride) positions; the transposed '
+         'convolution is the direct sum over the input rows x[(o + t*d - pa) / s] its taps meet, SAME gives n*s and VALID n*s + max(k_eff - s, 0) positions, and the CIRCULAR wrap adds up exactly '
+         'the entries congruent to each position of the period; max pooling '
          'returns a bounding element of the window; Embed is a lookup; masked positions cannot influence normalisation statistics, deviations from the mean sum to zero, running averages at momentum '
          '0 and 1. Tied to /repo per run: every layer of the property (Dense, DenseGeneral, Einsum, Conv 1-D/2-D, ConvLocal, ConvTranspose, Embed, pooling, LayerNorm / RMSNorm / GroupNorm / '
          'InstanceNorm / BatchNorm, Dropout) in Linen and NNX with explicit integer parameters is compared with an independent numpy direct-sum reference and Linen with NNX; the modelled '
          'layers are also compared with the model in Coq.',
     note='Trusted: Coq kernel, vm_compute, harness (numpy reference c12_ref.py), jaxcompat, float64 arithmetic of XLA on small integers. NOT proved / not modelled: DenseGeneral and Einsum axis '
-         'arithmetic, 2-D convolutions, ConvLocal, ConvTranspose, normalised outputs (square roots), Group / Instance / RMS norms, Dropout: oracle-only. Outputs at masked positions and windows '
+         'arithmetic, 2-D convolutions and 2-D ConvTranspose, ConvLocal, normalised outputs (square roots), Group / Instance / RMS norms, Dropout: oracle-only. Outputs at masked positions and windows '
          'entirely in the padding (0/0) are unspecified and compared as the code gives them. dtype promotion, precision, axis_name not covered. No axioms.',
     technique='Coq proof (index arithmetic of padding / strides, non-interference, rational statistics) + per-run correspondence by vm_compute + independent direct-sum reference on the real code',
     ref='DESIGN.md section 5, C12'),
